@@ -72,6 +72,9 @@ def chdir(path):
         os.chdir(old)
 
 
+LAST = {"stderr": ""}     # what the last in-process run wrote on its standard error
+
+
 def run_cli(entry, argv, cwd=None, stdin_text=None):
     """run a tool's `run()` in-process the way the test suite does: patched argv, captured stdout.
     returns (status, stdout) where status is 'ok<ret>' or the exception class name"""
@@ -97,6 +100,7 @@ def run_cli(entry, argv, cwd=None, stdin_text=None):
         status = exc_class(e)
     finally:
         sys.argv, sys.stdin = old_argv, old_stdin
+    LAST["stderr"] = err.getvalue()
     return status, out.getvalue()
 
 
